@@ -141,30 +141,30 @@ Qed.
 
 Lemma walk_value_assign_start r app s f s' : walk_value_assign r app s = WOk f s' -> frag_start f = ref_start r.
 Proof.
-  unfold walk_value_assign. destruct (pop_token s) as [t s1|t s1|p|]; try discriminate. cbn [wbind].
+  unfold walk_value_assign. destruct (pop_token s) as [t s1|t wet s1|p|]; try discriminate. cbn [wbind].
   destruct (negb (tt_eqb (ty t) ASSIGN)); [discriminate|].
-  destruct (pop_value_top s1) as [v s2|t2 s2|p|]; try discriminate. cbn [wbind].
-  destruct (end_statement s2) as [c s3|t3 s3|p|]; try discriminate. cbn [wbind].
+  destruct (pop_value_top s1) as [v s2|t2 wet2 s2|p|]; try discriminate. cbn [wbind].
+  destruct (end_statement s2) as [c s3|t3 wet3 s3|p|]; try discriminate. cbn [wbind].
   intros [= <- _]. reflexivity.
 Qed.
 
 Lemma walk_statement_start s f s' t rs : wrest s = t :: rs -> walk_statement s = WOk f s' -> frag_start f = tstart t.
 Proof.
   intros Hr. unfold walk_statement, pop_reference.
-  destruct (pop_reference_loop (S (length (wrest s))) [] s) as [r s1|t1 s1|p|] eqn:Ep; try discriminate. cbn [wbind].
+  destruct (pop_reference_loop (S (length (wrest s))) [] s) as [r s1|t1 wet1 s1|p|] eqn:Ep; try discriminate. cbn [wbind].
   pose proof (pop_reference_loop_start _ _ _ _ _ Ep) as Hs. cbn in Hs. rewrite Hr in Hs. rewrite <- Hs.
   destruct (tt_eqb (next_type s1) ASSIGN); [apply walk_value_assign_start|].
   destruct (tt_eqb (next_type s1) PLUS).
-  - destruct (pop_token s1) as [t2 s2|t2 s2|p|]; try discriminate. cbn [wbind].
+  - destruct (pop_token s1) as [t2 s2|t2 wet2 s2|p|]; try discriminate. cbn [wbind].
     destruct (negb (tt_eqb (next_type s2) ASSIGN)); [|apply walk_value_assign_start].
-    destruct (pop_token s2) as [t3 s3|t3 s3|p|]; discriminate.
-  - destruct (tags_loop _ [] s1) as [tags s2|t2 s2|p|]; try discriminate. cbn [wbind].
-    destruct (quals_loop _ [] s2) as [quals s3|t3 s3|p|]; try discriminate. cbn [wbind].
+    destruct (pop_token s2) as [t3 s3|t3 wet3 s3|p|]; discriminate.
+  - destruct (tags_loop _ [] s1) as [tags s2|t2 wet2 s2|p|]; try discriminate. cbn [wbind].
+    destruct (quals_loop _ [] s2) as [quals s3|t3 wet3 s3|p|]; try discriminate. cbn [wbind].
     destruct (next_type s3);
-      try (destruct (pop_token s3) as [t4 s4|t4 s4|p|]; try discriminate; cbn [wbind];
-           try (destruct (end_statement s4) as [c s5|t5 s5|p|]; try discriminate; cbn [wbind]);
+      try (destruct (pop_token s3) as [t4 s4|t4 wet4 s4|p|]; try discriminate; cbn [wbind];
+           try (destruct (end_statement s4) as [c s5|t5 wet5 s5|p|]; try discriminate; cbn [wbind]);
            intros [= <- _]; reflexivity);
-      try (destruct (end_statement s3) as [c s4|t4 s4|p|]; try discriminate; cbn [wbind]; intros [= <- _]; reflexivity);
+      try (destruct (end_statement s3) as [c s4|t4 wet4 s4|p|]; try discriminate; cbn [wbind]; intros [= <- _]; reflexivity);
       try (intros [= <- _]; reflexivity).
 Qed.
 
@@ -173,14 +173,14 @@ Proof.
   intros Hr. unfold next_fragment, next_type. rewrite Hr.
   assert (Epop : pop_token s = WOk t (mkW rs (Some t))) by (unfold pop_token; rewrite Hr; reflexivity).
   destruct (ty t) eqn:Et; try (rewrite Epop; cbn [wbind]; discriminate).
-  - destruct (walk_statement s) as [f0 s0|t1 s0|p|] eqn:Es; try discriminate. cbn [wbind]. intros [= <- _].
+  - destruct (walk_statement s) as [f0 s0|t1 wet1 s0|p|] eqn:Es; try discriminate. cbn [wbind]. intros [= <- _].
     eapply walk_statement_start; eauto.
-  - destruct (walk_statement s) as [f0 s0|t1 s0|p|] eqn:Es; try discriminate. cbn [wbind]. intros [= <- _].
+  - destruct (walk_statement s) as [f0 s0|t1 wet1 s0|p|] eqn:Es; try discriminate. cbn [wbind]. intros [= <- _].
     eapply walk_statement_start; eauto.
   - rewrite Epop. cbn [wbind]. intros [= <- _]. reflexivity.
   - rewrite Epop. cbn [wbind]. intros [= <- _]. reflexivity.
   - unfold pop_description.
-    destruct (pop_description_loop (S (length (wrest s))) [] s) as [d s0|t1 s0|p|] eqn:Ed; try discriminate.
+    destruct (pop_description_loop (S (length (wrest s))) [] s) as [d s0|t1 wet1 s0|p|] eqn:Ed; try discriminate.
     cbn [wbind]. intros [= <- _]. cbn [frag_start].
     destruct (pop_description_loop_stop _ _ _ _ _ ltac:(unfold next_type; rewrite Hr; exact Et) Ed) as (_ & _ & Hs).
     rewrite Hr in Hs. exact Hs.
